@@ -190,7 +190,11 @@ def c04_obs(desc, rec):
         return out
     res = rec.result
     cfg = desc["config"]
-    cycles = rec.steps
+    if rec.via == "multitask":
+        # the observed run happened in a worker process on a copy of the optimizer: cycles are counted from the result
+        cycles = len(res.rates)
+    else:
+        cycles = rec.steps
     if cycles > cfg["max_cycles"]:
         out.append({"cls": [opt, "exceeded_max_cycles"], "msg": f"{cycles} cycles ran, max_cycles={cfg['max_cycles']}"})
     if len(res.evolution) != 1 + cycles or len(res.rates) != cycles:
@@ -243,7 +247,8 @@ def c06(desc, rec):
     if rec.exc is None or rec.raised_injected or rec.step_limit or rec.deadlock:
         out = []
         if rec.result is not None:
-            ok = type(rec.result).__name__ == "OptimizationResult" and len(rec.result.evolution) == 1 + rec.steps
+            steps = rec.steps if rec.via != "multitask" else len(rec.result.rates)
+            ok = type(rec.result).__name__ == "OptimizationResult" and len(rec.result.evolution) == 1 + steps
             if not ok:
                 out.append({"cls": [desc["optimizer"], "incomplete_result", "optimize"],
                             "msg": f"{len(rec.result.evolution)} generations for {rec.steps} cycles"})
@@ -504,6 +509,53 @@ def c11_pool(desc, rec):
             add("replayed_stream", f"{len(firsts)} worker processes of one pool drew, {len(set(firsts))} distinct "
                                    f"first values: workers replay one another's random stream")
             break
+    # ... and must not produce one another's points: two worker processes of the initial pool whose sequences of
+    # evaluated points share a prefix that independent uniform draws would share with probability < 1e-12
+    if mode == "process" and rec.base_init and rec.init_positions_by_ctx and \
+            not any(f["kind"].startswith(("stream_", "index_")) or f["kind"] == "objective_scribbles"
+                    for f in desc.get("faults") or []):
+        lp1 = _log10_coincidence(desc["task"]["vars"])
+        by_pool = {}
+        for (pid_, label), seq in rec.init_positions_by_ctx.items():
+            by_pool.setdefault(label.split("w")[0], []).append((label, seq))
+        done = False
+        for pl, workers in by_pool.items():
+            for i in range(len(workers)):
+                for j in range(i + 1, len(workers)):
+                    a, b = workers[i][1], workers[j][1]
+                    L = 0
+                    while L < min(len(a), len(b)) and a[L] == b[L]:
+                        L += 1
+                    if L and L * lp1 <= -12.0:
+                        add("replayed_positions", f"worker processes {workers[i][0]} and {workers[j][0]} of the initial "
+                                                  f"pool evaluated the same first {L} point(s) (chance for independent "
+                                                  f"draws: 1e{L * lp1:.0f}): workers replay one another's random stream")
+                        done = True
+                        break
+                if done:
+                    break
+            if done:
+                break
     if rec.deadlock:
         add("deadlock", "the pooled run deadlocked")
     return out
+
+
+def _log10_coincidence(vars_):
+    """log10 of the probability that two independent uniform draws from the search space coincide exactly."""
+    lp = 0.0
+    for v in vars_:
+        t = v["type"]
+        if t == "cont":
+            lp -= 15.0
+        elif t in ("cont_multi", "multiobj"):
+            lp -= 15.0 * len(v["lb"])
+        elif t == "discrete":
+            lp -= math.log10(max(2, len(v["choices"])))
+        elif t == "discrete_multi":
+            lp -= sum(math.log10(max(2, len(ch))) for ch in v["choices"])
+        elif t == "binary":
+            lp -= v["n"] * math.log10(2)
+        elif t == "perm":
+            lp -= math.log10(math.factorial(len(v["items"])))
+    return min(lp, -1e-9)
